@@ -369,7 +369,7 @@ def compare(fr, op, l, r, node):
             return CMP[type(op)](l, r)
         v = try_lift(CMP[type(op)], l, r)
         if v is TOO_WIDE:
-            raise Abort("finite-function comparison too wide")
+            return ACond("cmp:" + type(op).__name__, l, r)
         return v
     neg = isinstance(op, ast.NotEq)
     if isinstance(op, (ast.Eq, ast.NotEq)):
@@ -519,6 +519,8 @@ def getattr_(fr, base, attr, node):
     I = fr.I
     repo = I.repo
     if isinstance(base, AOpq):
+        if attr in ("__name__", "__class__", "__qualname__"):
+            return I.opaque("class name", notnone=True)
         if base.notnone and attr in ("encode", "decode", "strip", "lstrip", "rstrip", "upper", "lower", "hex", "format", "replace", "rjust", "ljust", "zfill", "split", "join"):
             return AFn(base, attr)
         return I.opaque(f"attr {attr} of opaque")
@@ -637,6 +639,8 @@ def getattr_(fr, base, attr, node):
     if isinstance(base, (dict, list, tuple, bytes, bytearray, str, int, BitArr, set)):
         return AFn(base, attr)
     if base is None:
+        if attr == "__class__":
+            return I.opaque("type(None)", notnone=True)
         raise PathRaise("AttributeError", f"None.{attr} at {fr.fi.module.relpath}:{node.lineno}")
     if base in (int, bytes, bytearray, str, dict, list):
         return AFn(base, attr)
